@@ -76,23 +76,37 @@ def r1_number_arms(rep, ctx):
     for i, r in enumerate(rets):
         v = r.value
         key = "Scalar._DoOperation:return%d:%s" % (i, norm(ast.unparse(v))[:50])
-        vt = res.term(v)
-        alts = alternatives(vt)
-        if not all(own_cwq(a_) for a_ in alts):
+        ret_facts = [(res.term(e_), val_, e_) for e_, val_ in cfg.facts_at(cfg.node_of(r))]
+
+        def site_facts(sites):
+            out_ = list(ret_facts)
+            for site in sites:
+                if site is not None:
+                    out_ += [(res.term(e_), val_, e_) for e_, val_ in cfg.facts_at(cfg.node_of(site))]
+            return out_
+
+        # the returned value, case by case, each with the facts of the site where it was built:
+        # `return X` (a local), `return cls.CreateWithQuantity(*pair)` (a local pair), or the expression itself
+        cases = []
+        if isinstance(v, ast.Name):
+            for (ost, ot), chain in zip(res.origins(v), list(res.origin_chains)):
+                cases += [(a_, site_facts([ost] + chain)) for a_ in alternatives(ot)]
+        elif isinstance(v, ast.Call) and len(v.args) == 1 and isinstance(v.args[0], ast.Starred) and isinstance(v.args[0].value, ast.Name) and not v.keywords:
+            ft = res.term(v.func)
+            for (ost, ot), chain in zip(res.origins(v.args[0].value), list(res.origin_chains)):
+                for a_ in alternatives(ot):
+                    cases.append((("call", ft, a_[1], ()) if a_[0] == "tuple" else ("expr", "?"), site_facts([ost] + chain)))
+        else:
+            cases = [(a_, ret_facts) for a_ in alternatives(res.term(v))]
+        if not cases or not all(own_cwq(a_) for a_, _f in cases):
             rep.bad("C09.R1", key, "Scalar._DoOperation can return `%s`: the result is not a new object built by CreateWithQuantity (a shortcut that returns an operand, or a bare number, skips the operation or strips the unit)" % ast.unparse(v), node=r, fn=fn)
             continue
-        facts_here = [(res.term(e_), val_, e_) for e_, val_ in cfg.facts_at(cfg.node_of(r))]
-        # (facts of the site where the result was built, when the return hands on a local)
-        if isinstance(v, ast.Name):
-            for (ost, _ot), chain in zip(res.origins(v), list(res.origin_chains)):
-                for site in [ost] + chain:
-                    if site is not None:
-                        facts_here += [(res.term(e_), val_, e_) for e_, val_ in cfg.facts_at(cfg.node_of(site))]
 
-        def holds(pred):
-            return any(pred(t_, val_, e_) for t_, val_, e_ in facts_here)
+        for a_, facts_here in cases:
 
-        for a_ in alts:
+            def holds(pred, facts_here=facts_here):
+                return any(pred(t_, val_, e_) for t_, val_, e_ in facts_here)
+
             qt, val = a_[2][0], a_[2][1]
             if qt == ("field", "_quantity"):
                 # a number arm: callback(p1, self._value) or callback(self._value, p2)
